@@ -19,6 +19,8 @@ structure DState where
   book : Book := Book.empty
   store : Store := Store.empty
   cand : Option (CoinState × Summary × Nat × List CTx) := none
+  fparams : FetchParams := ⟨1, 60, 300, 60⟩
+  fetch : FetchSt := ⟨0, fun _ => 0, []⟩
 
 def defaultParams : Params := {
   maxSashimi := 2099999986350000, maxBlockSize := 200000, maxFutureBlockTime := 30,
@@ -304,6 +306,67 @@ def nodeStep (d : DState) (C : Crypto) (args : List String) : DState × String :
   | ["digest"] => (d, nodeDigest C n)
   | _ => (d, "bad-op")
 
+/-! ### the fetch scheduler (`ChainManager.step`) -/
+
+def fetchLine (n : Node) (f : FetchSt) : String :=
+  let fl := String.intercalate "," (f.fetching.map fun e => s!"{e.1}:{e.2}")
+  let w := String.join (n.peers.map fun p => if p.waitingForInventory then "1" else "0")
+  s!"fetching={fl} waiting={w}"
+
+def fetchStep (d : DState) (C : Crypto) (args : List String) : DState × String :=
+  let n := d.node
+  let f := d.fetch
+  match args with
+  | ["new", startedAt] =>
+    (match startedAt.toInt? with
+      | some t => ({ d with fetch := ⟨t, fun _ => 0, []⟩ }, "ok")
+      | none => (d, "bad-op"))
+  | ["param", name, v] =>
+    (match v.toNat? with
+      | some k =>
+        let F := d.fparams
+        (match name with
+          | "maxIbdPeers" => ({ d with fparams := { F with maxIbdPeers := k } }, "ok")
+          | "ibdPeerTimeout" => ({ d with fparams := { F with ibdPeerTimeout := k } }, "ok")
+          | "switchToActive" => ({ d with fparams := { F with switchToActive := k } }, "ok")
+          | "emptyBackoff" => ({ d with fparams := { F with emptyBackoff := k } }, "ok")
+          | _ => (d, "bad-op"))
+      | none => (d, "bad-op"))
+  | ["peer", c, waiting, npending, lastEmpty] =>
+    (match c.toNat?, npending.toNat?, lastEmpty.toInt? with
+      | some c, some k, some t =>
+        let n' := n.updatePeer c fun p =>
+          { p with waitingForInventory := waiting == "1", pendingInventory := List.replicate k [0] }
+        ({ d with node := n', fetch := noteEmptyInventory f c t }, "ok")
+      | _, _, _ => (d, "bad-op"))
+  | ["emptyinv", c, now] =>
+    (match c.toNat?, now.toInt? with
+      | some c, some t =>
+        let (n', e) := handleMessage C d.params n c 1 1 (.inventory []) t
+        (match e with
+          | none => ({ d with node := n', fetch := noteEmptyInventory f c t }, "ret " ++ fetchLine n' (noteEmptyInventory f c t))
+          | some _ => ({ d with node := n' }, "exc"))
+      | _, _ => (d, "bad-op"))
+  | ["step", now, pick] =>
+    (match now.toInt?, pick.toNat? with
+      | some t, some k =>
+        (match chainStep C d.fparams n f t k with
+          | .ok (n', f') =>
+            let grown := (List.range n'.peers.length).filter fun c =>
+              match n.peers[c]?, n'.peers[c]? with
+              | some p, some p' => p'.outbox.length > p.outbox.length
+              | _, _ => false
+            let sent := String.intercalate ";" (grown.map fun c =>
+              match n'.peers[c]? with
+              | some p' => (match p'.outbox.getLast? with
+                  | some (.getBlocks loc) => s!"{c}<-GB:" ++ String.intercalate "," (loc.map short)
+                  | _ => s!"{c}<-other")
+              | none => "")
+            ({ d with node := n', fetch := f' }, s!"ok sent={sent} " ++ fetchLine n' f')
+          | .error e => (d, "err " ++ errKind e))
+      | _, _ => (d, "bad-op"))
+  | _ => (d, "bad-op")
+
 /-! ### wallet and peer book -/
 
 def sortStrings (l : List String) : List String := l.mergeSort (fun a b => a ≤ b)
@@ -461,6 +524,7 @@ def step (d : DState) (line : String) : DState × String :=
       | some t => flipsCmd C d.params (d.getState name) (hx blk) t
       | none => "bad-op")
   | "node" :: args => nodeStep d C args
+  | "fetch" :: args => fetchStep d C args
   | "w" :: args => walletStep d C args
   | "book" :: args => bookStep d args
   | "store" :: args => storeStep d C args
